@@ -29,6 +29,7 @@ import (
 	"github.com/kstenerud/go-concise-encoding/ce/events"
 	"github.com/kstenerud/go-concise-encoding/configuration"
 	"github.com/kstenerud/go-concise-encoding/internal/common"
+	"github.com/kstenerud/go-concise-encoding/verifhook"
 )
 
 // An iterator session holds a cache of known mappings of types to iterators.
@@ -105,14 +106,18 @@ func (_this *Session) GetIteratorForType(t reflect.Type) IteratorFunction {
 
 	wg.Add(1)
 	storedIterator, loaded := _this.iteratorFuncs.LoadOrStore(t, IteratorFunction(func(context *Context, value reflect.Value) {
+		verifhook.Point("iterator.placeholder.wait")
 		wg.Wait()
 		iterator(context, value)
 	}))
 	if loaded {
+		verifhook.Point("iterator.cache.lost-race")
 		return storedIterator.(IteratorFunction)
 	}
 
+	verifhook.Point("iterator.cache.miss")
 	iterator = _this.getDefaultIteratorForType(t)
+	verifhook.Point("iterator.cache.generated")
 	wg.Done()
 	_this.iteratorFuncs.Store(t, iterator)
 	return iterator
